@@ -68,6 +68,15 @@ CHECKS = {
  "C09": dict(engine="net", technique="exhaustive enumeration of the TLS configuration grid (finite domain) with generated-peer handshakes against a truth-table oracle",
              text="All 252 cells of {min version} x {certificate mode} x {authz} x {role of rodbus} x {versions the peer offers} x {peer certificate variant} are exercised with real handshakes over loopback against rustls peers the harness configures itself (pinned versions, no validation of their own); served/refused, negotiated version, role string seen by the authorization handler and a plaintext probe are compared with the truth table.",
              ref="DESIGN.md section 4 C09", note="Trusted base: the truth table, the committed test PKI (tools/mkcerts.sh, fixed-date expired / not-yet-valid certificates), rustls as the peer implementation. Certificates with two role extensions are not in the grid (openssl cannot mint them)."),
+ "C16": dict(engine="net", technique="property-based testing: generated wildcard strings vs. a reference grammar; generated (filter, peer address) pairs over loopback aliases vs. a reference matcher, across TCP/TLS/TLS+authz servers built through the Rust API and through the C ABI",
+             text="300k generated strings for the wildcard parser; 400 (quick) generated filter/peer cases, each starting a real server (one of six variant/API combinations) and probing 5-15 loopback source addresses: matching peers must be served (after a TLS handshake where applicable), non-matching peers must receive zero bytes.",
+             ref="DESIGN.md section 4 C16", note="Trusted base: reference grammar and matcher, loopback aliases in 127/8 and ::1, rustls as the probing TLS client, the committed test PKI. IPv4-mapped IPv6 peers on dual-stack listeners are not exercised."),
+ "C18": dict(engine="ffi", technique="differential testing with exhaustive tables and seeded random arguments: the extern \"C\" functions of the rodbus-ffi rlib vs. the Rust API against one scripted peer; name-for-name mapping oracle; callback ledger",
+             text="Every row of the mapping tables is visited on each run: 8 client operations x (random successes, all 256 exception codes, malformed / foreign / missing / truncated-connection / bad-header replies), not-connected / queue-full / runtime-destroyed conditions with exactly-once callback accounting, 4 write callbacks x 266 WriteResult values, 36 decode levels compared through captured log classes.",
+             ref="DESIGN.md section 4 C18", note="Trusted base: expected enum names derived from Rust Debug names; the scripted peer; the rlib's extern functions (not the generated C/.NET/Java wrappers)."),
+ "C19": dict(engine="ffi", technique="model-based property testing (generated operation sequences vs. a four-map model) + amplified stress sampling for atomicity",
+             text="Generated sequences of database operations inside configure callbacks and update transactions interleaved with client reads, every return value and reply compared with a map model; atomicity is stress-sampled with transactions whose callback deliberately widens the window while three connections read all registers in single requests.",
+             ref="DESIGN.md section 4 C19", note="Trusted base: the map model; the OS scheduler is not controlled, the atomicity part is sampling with amplification (thousands of overlapping replies per run), not schedule enumeration."),
 }
 
 NOT_YET = {
